@@ -3343,6 +3343,23 @@ struct Explorer {
         st.invocations++;
         last_init_ok = r.exit_code == 0;
         if (!op.expect_error && r.out.find("ninja: error: build.ninja:") != string::npos) {
+          if (!sc.twin_variants.empty()) {
+            // the project and its twin say the same thing in two ways: when ninja reads the twin and refuses this one, that
+            // is a verdict (about spellings, dyndep or discovered information), not a mistake of the generator
+            vfs::Disk td = w0.twin;
+            RunResult rt = RunNinja(&td, op.cfg, {});
+            st.invocations++;
+            if (rt.out.find("ninja: error: build.ninja:") == string::npos) {
+              Violation x;
+              x.prop = sc.tags.count("spelling") ? "C14" : sc.tags.count("dyndep") ? "C11" : "C10";
+              x.clause = "manifest-refused-unlike-its-twin";
+              x.detail = "ninja refuses the manifest (" + r.out.substr(0, 200) + ") and reads the twin that says the same in other words";
+              vector<Step> h = w0.hist;
+              h.push_back({opi, r.choices});
+              if (Want(x.prop.c_str())) Report(x, h);
+              return;
+            }
+          }
           // a scenario generator wrote a manifest ninja does not accept: not a verdict about ninja
           fprintf(stderr, "HARNESS ERROR: initial build of %s: %s\n", sc.name.c_str(), r.out.c_str());
           exit(2);
